@@ -1,9 +1,11 @@
 import JivaVerif.Drv.Replica
 import JivaVerif.Drv.Controller
 import JivaVerif.Drv.Rpc
+import JivaVerif.Drv.Rest
 def main (args : List String) : IO Unit := do
   match args with
   | ["replica"] => Jiva.Drv.replicaMain
   | ["ctl"] => Jiva.Drv.ctlMain
   | ["rpc"] => Jiva.Drv.rpcMain
+  | ["rest"] => Jiva.Drv.restMain
   | _ => IO.eprintln "usage: drv replica|ctl|rpc"
